@@ -245,6 +245,12 @@ func (m *nodeMonitor) check() {
 				}
 			}
 		case "fstore":
+			if e.x != "<nil>" {
+				o.violate("C10", "finalization-store-write-refused", fmt.Sprintf("SaveFinalization(%d) failed: %s", e.h, e.x))
+			}
+			if m.finSaved[e.h] && e.x == "<nil>" {
+				o.violate("C10", "finalization-overwritten", fmt.Sprintf("the finalization of height %d was stored a second time", e.h))
+			}
 			if e.x == "<nil>" {
 				if prev, ok := m.finReq[e.h]; ok && prev != e.hash {
 					o.violate("C08", "finalization-saved-for-other-block", fmt.Sprintf("finalization stored at %d for %s, requested %s", e.h, h8([]byte(e.hash)), h8([]byte(prev))))
